@@ -16,6 +16,7 @@ time.time() - as primitives of PySem.v; module-level constants (UbxAckAck.CID, U
 imported module. Fail-closed: any construct outside the accepted subset raises TranslateError (Tie B unavailable for
 the request loop, the verdict rests on Tie A)."""
 import ast
+import copy
 import os
 
 from .translate import TranslateError, dotted, err, is_logging, method_ast
@@ -257,6 +258,9 @@ class Fn:
             return f'(PBool {self.tst(e)})'
         if isinstance(e, ast.List):
             return '(PList [' + '; '.join(self.ex(x) for x in e.elts) + '])'
+        if self.objmode and isinstance(e, ast.Dict) and all(isinstance(k_, ast.Constant) and isinstance(k_.value, str) for k_ in e.keys) \
+                and len({k_.value for k_ in e.keys}) == len(e.keys):
+            return '(PDict [' + '; '.join(f'({coq_str(k_.value)}%string, {self.ex(v_)})' for k_, v_ in zip(e.keys, e.values)) + '])'
         if isinstance(e, ast.Call):
             f = dotted(e.func)
             if e.keywords:
@@ -674,6 +678,11 @@ class ObjFn(Fn):
         super().__init__(mod, cls, name, known, (0, 0))
         self.params = ['self'] + self.params
         self.locals = ['self'] + [x for x in self.locals if x != 'self'] + ['aug__tmp']
+        # temporaries for self.f.get(..) calls nested inside an expression (they may raise, so they are sequenced first)
+        direct = {id(st.value) for st in ast.walk(self.fn) if isinstance(st, ast.Assign)}
+        nested = [c for c in ast.walk(self.fn) if isinstance(c, ast.Call) and dotted(c.func) == 'self.f.get' and id(c) not in direct]
+        self.locals += [f'hoist__{k}' for k in range(len(nested))]
+        self.n_hoisted = 0
         self.defined.add('self')
 
     def _collect(self, body):
@@ -786,7 +795,52 @@ class ObjFn(Fn):
     def self_setter(self, attr):
         return f'(fun l v => {self.setter("self")} l (py_setattr ({self.fld("self")} l) {coq_str(attr)} v))'
 
+    def hoist_gets(self, node):
+        """self.f.get(<pure>) calls nested in an expression -> (temporaries in evaluation order, expression over them)"""
+        pre = []
+        outer = self
+
+        class T(ast.NodeTransformer):
+            def visit_Call(s, c):
+                c = s.generic_visit(c)
+                if dotted(c.func) == 'self.f.get' and len(c.args) == 1 and not c.keywords:
+                    name = f'hoist__{outer.n_hoisted}'
+                    outer.n_hoisted += 1
+                    if name not in outer.locals:
+                        err(c, 'nested self.f.get(): no temporary left')
+                    pre.append((name, c))
+                    return ast.copy_location(ast.Name(id=name, ctx=ast.Load()), c)
+                return c
+        new = T().visit(copy.deepcopy(node))
+        return pre, ast.fix_missing_locations(new)
+
     def stmt(self, st):
+        if isinstance(st, ast.Assign) and len(st.targets) == 1 and not (isinstance(st.value, ast.Call) and dotted(st.value.func) == 'self.f.get') \
+                and any(isinstance(c, ast.Call) and dotted(c.func) == 'self.f.get' for c in ast.walk(st.value)):
+            # Python evaluates the operands left to right; every other part of the expression is pure
+            pre, newv = self.hoist_gets(st.value)
+            parts = []
+            for name, c in pre:
+                parts.append(f'(s_call_assign {self.setter(name)} {self.lam(self.call(c))})')
+                self.defined.add(name)
+            st2 = ast.copy_location(ast.Assign(targets=st.targets, value=newv), st)
+            parts.append(self.stmt(st2))
+            out = parts[-1]
+            for t in reversed(parts[:-1]):
+                out = f'(s_seq {t}\n {out})'
+            return out
+        if isinstance(st, ast.Return) and st.value is not None and not (isinstance(st.value, ast.Call) and dotted(st.value.func) == 'self.f.get') \
+                and any(isinstance(c, ast.Call) and dotted(c.func) == 'self.f.get' for c in ast.walk(st.value)):
+            pre, newv = self.hoist_gets(st.value)
+            parts = []
+            for name, c in pre:
+                parts.append(f'(s_call_assign {self.setter(name)} {self.lam(self.call(c))})')
+                self.defined.add(name)
+            parts.append(self.stmt(ast.copy_location(ast.Return(value=newv), st)))
+            out = parts[-1]
+            for t in reversed(parts[:-1]):
+                out = f'(s_seq {t}\n {out})'
+            return out
         if isinstance(st, ast.Return):
             if st.value is None:
                 return f'(s_return (fun l w => PTuple [PNone; {self.fld("self")} l]))'
@@ -1110,6 +1164,34 @@ def emit_gnss_v(path):
         L.append(f.emit())
         L.append('')
     L.append('End G.')
+    text = '\n'.join(L) + '\n'
+    with open(path, 'w') as fh:
+        fh.write(text)
+    return text
+
+
+def emit_lever_v(path):
+    """UbxCfgEsfla.lever_arm (ubxlib/ubx_cfg_esfla.py) -> gen/LeverKernels.v"""
+    import ubxlib.ubx_cfg_esfla as mod
+    import ubxlib.types as T_
+    cls = mod.UbxCfgEsfla
+    if 'lever_arm' not in cls.__dict__:
+        raise TranslateError('UbxCfgEsfla.lever_arm is no longer defined in the class itself')
+    g_ = method_ast(T_.Fields, 'get')
+    gb = [b_ for b_ in g_.body if not is_noop(b_)]
+    arg = g_.args.args[1].arg if len(g_.args.args) == 2 else None
+    if not (len(gb) == 1 and isinstance(gb[0], ast.Return) and ast.unparse(gb[0].value) == f'self._fields[{arg}]'):
+        raise TranslateError('Fields.get is no longer `return self._fields[<its argument>]`')
+    f = ObjFn(mod, cls, 'lever_arm', {}, prefix='ghl_')
+    f.short = 'hl_' + f.short
+    L = ['(* GENERATED on every run by py/vlib/translate_req.py from ubxlib/ubx_cfg_esfla.py in /repo. Do not edit. *)',
+         'From Coq Require Import String.',
+         'From Ubx Require Import Fields Base Checksum Frame ParserUbx ParserNmea CfgKeys Request PySem.',
+         'Open Scope N_scope.', '']
+    L += f.record()
+    L += ['', 'Section G.', 'Context {E : Type} (B : backend E) (sk : list N).', 'Notation fres := (@fres E).', '']
+    L.append(f.emit())
+    L += ['', 'End G.']
     text = '\n'.join(L) + '\n'
     with open(path, 'w') as fh:
         fh.write(text)
